@@ -165,6 +165,14 @@ def decompile_digest(text: str, source_map) -> dict:
     return {"text": text, "source_map": json.loads(source_map.serialize())}
 
 
+def process_settings() -> dict:
+    """Interpreter-wide settings a call could change and later calls depend on (part of every outcome digest in the
+    history and schedule checks: a call must leave them as it found them, or at least always leave them the same)."""
+    import sys
+
+    return {"recursionlimit": sys.getrecursionlimit()}
+
+
 def failure_digest(exc: BaseException) -> dict:
     # exception TYPE only: wording of ANTLR messages is legitimately history-dependent (DESIGN.md section 3)
     return {"raised": type(exc).__name__}
